@@ -416,6 +416,7 @@ func main() {
 	go watchdog(res, b.hang)
 	r := vlib.NewRNG(seed)
 	rTables, rBlocks, rDamage, rK := r.Fork(), r.Fork(), r.Fork(), r.Fork()
+	rU := r.Fork()
 
 	if a.Extra == "golden-gen" {
 		w, _ := BuildTable(goldenCfg, goldenKVs())
@@ -440,5 +441,8 @@ func main() {
 	})
 	t3 := time.Now()
 	fmt.Printf("c13: tables %.1fs, blocks %.1fs, damage %.1fs (%d tasks), violations %d\n", t1.Sub(t0).Seconds(), t2.Sub(t1).Seconds(), t3.Sub(t2).Seconds(), len(tasks), res.NViolations())
-	emitK(a, res, rK)
+	tu := time.Now()
+	ucases := runUtil(a, res, rU)
+	fmt.Printf("c13: util.Buffer / BufferPool / BytesPrefix %.1fs, violations %d\n", time.Since(tu).Seconds(), res.NViolations())
+	emitK(a, res, rK, ucases)
 }
